@@ -408,5 +408,13 @@ def call (a : Amp α) (o : Oper α) (cs : List (Chan α)) : Option (Out α) :=
     some { kept := kept.map (fun c => c.f), pinDb := pinDb, effGain := eff, attIn := attIn, nf := nf,
            ase := aseL, gprofile := gp, margin := margin, pch := pch, poutDb := poutDb }
 
+/-- `Multiband_amplifier.__call__`: every amplifier of the node receives the channels of its own band
+(`demuxed_spectral_information`), the outputs are muxed; `none` = ValueError (no amplifier got a channel).
+The result lists the per-amplifier outputs in the node's amplifier order (the muxed spectrum is their union
+sorted by frequency). -/
+def multiCall (amps : List (Amp α × Oper α)) (cs : List (Chan α)) : Option (List (Out α)) :=
+  let outs := amps.filterMap (fun ao => call ao.1 ao.2 cs)
+  if outs.isEmpty then none else some outs
+
 end
 end Gnpy.Edfa
